@@ -43,6 +43,11 @@ def gen_case(rng, i):
         nv = 2 if e == 70000 else int(rng.integers(7, 11))
         a = {"names": [0, 1], "shape": [], "dtype": "int64", "kind": "int", "terms": [[[e, 0], [1]], [[2, 1], [3]], [[0, 0], [5]]]}
         return {"id": i, "kind": "c06", "op": op, "a": a, "vars": [0] * nv, "how": [gen.choice(rng, ["name", "position"]) for _ in range(nv)]}
+    if rng.random() < .25 and len(a["terms"]) >= 2:
+        # terms stored in descending / shuffled order, as polynomial({...}) with the high term first or a sympy import
+        # store them (seeded change C06-11: the decremented rows merged through a dict, later rows overwriting earlier ones)
+        a["terms"] = sorted(a["terms"], key=lambda t: t[0], reverse=True) if rng.random() < .6 else \
+            [a["terms"][int(k)] for k in rng.permutation(len(a["terms"]))]
     c = {"id": i, "kind": "c06", "op": op, "a": a}
     if op == "derivative":
         k = len(a["names"])
